@@ -37,7 +37,8 @@ WATCHDOG_S = {"quick": 400, "thorough": 3000}
 COMPUTED = ["emodulus", "volume", "area_um", "area_ratio", "aspect", "time", "fl1_max_ctc",
             "fl2_max_ctc", "fl3_max_ctc", "bright_avg", "bright_sd", "bright_bc_avg",
             "bright_perc_10", "inert_ratio_cvx", "inert_ratio_raw", "inert_ratio_prnc", "tilt",
-            "ml_class", "vmon_plugin", "index"]
+            "ml_class", "vmon_plugin", "vmon_plugin2", "vmon_plugin2", "vmon_plugin3",
+            "vmon_plugin3", "index"]
 CFG_CHOICES = {
     ("calculation", "emodulus lut"): ["LE-2D-FEM-19", "HE-2D-FEM-22", "HE-3D-FEM-22"],
     ("calculation", "emodulus medium"): ["CellCarrier", "water", "other", "0.49% MC-PBS",
@@ -89,6 +90,20 @@ def register_plugin():
         "method": method, "feature names": ["vmon_plugin"],
         "features required": ["vmon_t1"], "config required": [["setup", ["flow rate"]]],
         "scalar feature": [True], "version": "0.1"})
+
+    # chains of computed features: the plug-ins below depend on *computed* features whose own
+    # ingredients (pixel size; the emodulus keys) they do not list themselves
+    def method2(ds):
+        return {"vmon_plugin2": np.asarray(ds["area_um"]) * 2 + 1}
+    dclab.PlugInFeature("vmon_plugin2", {
+        "method": method2, "feature names": ["vmon_plugin2"],
+        "features required": ["area_um"], "scalar feature": [True], "version": "0.1"})
+
+    def method3(ds):
+        return {"vmon_plugin3": np.asarray(ds["emodulus"]) - 0.5}
+    dclab.PlugInFeature("vmon_plugin3", {
+        "method": method3, "feature names": ["vmon_plugin3"],
+        "features required": ["emodulus"], "scalar feature": [True], "version": "0.1"})
 
 
 def gen_data(rng):
@@ -181,7 +196,7 @@ def sanity_reject_model(feat, err, cfg, data):
     compute function deliberately rejects the configuration. Returns the mechanism key when
     the configuration satisfies the model's predicate and the error is the predicted one."""
     calc = cfg.get("calculation", {})
-    if feat == "emodulus":
+    if feat in ("emodulus", "vmon_plugin3"):     # (vmon_plugin3 requires emodulus)
         medium = str(calc.get("emodulus medium", "other")).lower()
         visc = calc.get("emodulus viscosity")
         known = medium in KNOWN_MEDIA
